@@ -20,6 +20,7 @@ import (
 	"crypto/tls"
 	"errors"
 	"io"
+	"io/ioutil"
 	"net"
 	"net/http"
 	"net/http/httputil"
@@ -647,6 +648,14 @@ func (p *Proxy) connect(req *http.Request) (*http.Response, net.Conn, error) {
 		if err != nil {
 			return nil, nil, err
 		}
+		if res.StatusCode/100 == 2 {
+			// A successful CONNECT response has no body: what follows its header
+			// is tunnel traffic. Hand over only what was read ahead together with
+			// the header; everything after that is copied from conn.
+			b, _ := pbr.Peek(pbr.Buffered())
+			res.Body = ioutil.NopCloser(bytes.NewReader(b))
+		}
+
 		return res, conn, nil
 	}
 
